@@ -10,6 +10,7 @@ func init() {
 			"FE-ORD: parseBinOp outer guard (stop iff prec(op) < min) and inner decision for all 15x15 operator pairs: looser -> leave, tighter -> recurse with prec(op) < k <= prec(look-ahead), equal -> left-assoc except ^",
 			"PV-API/PV-ORDER: ( expr ) is parsed as one ParenExpr operand closed by ); UnparenExpr strips all levels; build and evalExpr dispatch on UnparenExpr(expr)",
 			"FE-ORD: no path completes an operation without executing the look-ahead; an empty parenthesised operand yields no pairs (operands matched by key)",
+			"CH-MAP of the sample operations (what each operator of a chain computes), with the operand-side tracer following conversions, arithmetic and loop-carried values",
 		},
 		NotDecided: []string{"operand parsing (parseMetricExpr1 productions other than parentheses) – C05", "evaluation of the resulting tree – C12"},
 		Rules: func(r *Run) {
